@@ -27,3 +27,6 @@ gen_submit.main([os.path.join(b, "src"), vlib.LEAN])
 
 import gen_resubmit
 gen_resubmit.main([os.path.join(b, "src"), vlib.LEAN])
+
+import gen_topup
+gen_topup.main([os.path.join(b, "src"), vlib.LEAN])
